@@ -203,7 +203,7 @@ func VerifSel_DeepChain() {
 	_, perr := selector.ParseSelector(node)
 	verifrt.Assume(perr == nil)
 	err := selectorvalidator.ValidateMaxRecursionDepth(node, 100)
-	verifrt.Eventf("nesting=%d start=%d ok=%v err=%v", nest, start, ok, err)
+	verifrt.Eventf("nesting=%d start=%d err=%v", nest, start, err)
 	if nest >= 32 {
 		verifrt.Cover("nesting-32-or-more")
 	}
